@@ -2,6 +2,7 @@
 package c06
 
 import (
+	"math"
 	"github.com/ucan-wg/go-ucan/did"
 	"strings"
 	"github.com/ipld/go-ipld-prime/datamodel"
@@ -77,7 +78,7 @@ type Case struct {
 
 var byteKinds = []string{"bitflip", "delete", "insert-00", "insert-ff", "insert-copy", "subst-00", "subst-ff", "subst-not"}
 var fieldKinds = []string{"rewrite", "remove", "add-unknown"}
-var sigKinds = []string{"issuer-signs-principal-in-other-key-encoding", "issuer-signs-principal-in-other-key-encoding", "issuer-signs-principal-in-other-key-encoding", "issuer-signs-noncanonical-bytes", "issuer-signs-noncanonical-bytes", "resign-by-prefix-twin", "forger-signs-multi-payload-envelope", "forger-signs-multi-payload-envelope", "forger-key-in-did-url", "forger-key-in-did-url", "issuer-under-other-multicodec", "issuer-under-other-multicodec", "issuer-signs-other-payload-encoding", "issuer-signs-other-payload-encoding", "issuer-signs-header-insert", "issuer-signs-header-insert", "issuer-signs-header-delete", "issuer-signs-header-subst", "issuer-signs-header-dup-segment", "issuer-signs-foreign-header", "issuer-signs-garbled-header", "issuer-signs-empty-header", "issuer-signs-extended-header", "resign-other-same-alg", "resign-other-alg", "resign-signer-header", "borrow-signature", "header-other-alg", "header-garbled", "header-empty", "sig-truncate", "sig-empty", "sig-extend", "sig-zero", "ecdsa-forged-for-zero-digest", "ecdsa-forged-for-zero-digest", "ecdsa-trivial-values"}
+var sigKinds = []string{"issuer-signs-out-of-range-time", "issuer-signs-out-of-range-time", "header-nonminimal-varint", "issuer-signs-principal-in-other-key-encoding", "issuer-signs-principal-in-other-key-encoding", "issuer-signs-principal-in-other-key-encoding", "issuer-signs-noncanonical-bytes", "issuer-signs-noncanonical-bytes", "resign-by-prefix-twin", "forger-signs-multi-payload-envelope", "forger-signs-multi-payload-envelope", "forger-key-in-did-url", "forger-key-in-did-url", "issuer-under-other-multicodec", "issuer-under-other-multicodec", "issuer-signs-other-payload-encoding", "issuer-signs-other-payload-encoding", "issuer-signs-header-insert", "issuer-signs-header-insert", "issuer-signs-header-delete", "issuer-signs-header-subst", "issuer-signs-header-dup-segment", "issuer-signs-foreign-header", "issuer-signs-garbled-header", "issuer-signs-empty-header", "issuer-signs-extended-header", "resign-other-same-alg", "resign-other-alg", "resign-signer-header", "borrow-signature", "header-other-alg", "header-garbled", "header-empty", "sig-truncate", "sig-empty", "sig-extend", "sig-zero", "ecdsa-forged-for-zero-digest", "ecdsa-forged-for-zero-digest", "ecdsa-trivial-values"}
 
 var dlgFields = []string{"iss", "aud", "sub", "cmd", "pol", "nonce", "meta", "nbf", "exp"}
 var invFields = []string{"iss", "aud", "sub", "cmd", "args", "prf", "nonce", "meta", "exp", "iat", "cause"}
@@ -385,6 +386,58 @@ func corrupt(cs Case, sealed []byte) (out []byte, oldSig bool, ok bool) {
 		}
 		b, err := env.Seal(forger.Priv, sp)
 		return b, false, err == nil
+	case "issuer-signs-out-of-range-time":
+		// a time field (nbf, exp, iat - whichever the token type has; c.Alt picks) holding an integer no int64 can hold
+		// or no IEEE double can hold exactly, signed by the issuer: refused, or reported as signed - never a token whose
+		// bound is another number than the one under the signature
+		fields := []string{"exp", "nbf"}
+		if e.Tag == env.InvTag {
+			fields = []string{"exp", "iat"}
+		}
+		field := fields[c.Alt%2]
+		vals := []val.V{val.Uint(^uint64(0)), val.Uint(1 << 63), val.Uint(1<<63 + 1), val.Int(math.MaxInt64), val.Int(math.MinInt64), val.Int(1<<53 + 1), val.Int(-(1<<53 + 1)), val.Uint(^uint64(0) - 1)}
+		np := val.V{K: "map"}
+		found := false
+		for _, kv := range payload.M {
+			if kv.K == field {
+				kv.V = vals[(c.Alt/2)%len(vals)]
+				found = true
+			}
+			np.M = append(np.M, kv)
+		}
+		if !found {
+			np.M = append(np.M, val.KV{K: field, V: vals[(c.Alt/2)%len(vals)]})
+		}
+		b, err := env.SignPayload(iss.Key().Priv, e.Tag, np.Node())
+		return b, false, err == nil
+	case "header-nonminimal-varint":
+		// the header's varints re-spelled with one byte more than needed, under the OLD signature
+		var out []byte
+		seg, k := 0, c.Alt%5
+		done := false
+		for pos := 0; pos < len(e.Header); {
+			end := pos
+			for end < len(e.Header) && e.Header[end]&0x80 != 0 {
+				end++
+			}
+			if end >= len(e.Header) {
+				return nil, false, false
+			}
+			v := append([]byte{}, e.Header[pos:end+1]...)
+			if seg == k {
+				v[len(v)-1] |= 0x80
+				v = append(v, 0x00)
+				done = true
+			}
+			out = append(out, v...)
+			pos = end + 1
+			seg++
+		}
+		if !done {
+			return nil, false, false
+		}
+		b, err := env.Assemble(e.Sig, env.SigPayloadNode(out, e.Tag, e.Payload))
+		return b, true, err == nil
 	case "issuer-signs-principal-in-other-key-encoding":
 		// iss, aud or sub (c.Alt picks) is written as a did:key whose key bytes are ANOTHER encoding of a key - the
 		// SubjectPublicKeyInfo of an RSA key instead of its RSAPublicKey, the RSAPublicKey with a trailing element,
@@ -1244,6 +1297,9 @@ func TestEveryForgeryEveryAlgorithm(t *testing.T) {
 			alts := 6
 			if !h.Thorough() && d.Issuer().Alg == keys.RSA {
 				alts = 2
+			}
+			if kind == "issuer-signs-out-of-range-time" {
+				alts = 16
 			}
 			if kind == "header-garbled" {
 				alts = 64 // every bit of every byte of the header (8 bytes at most), under the old signature
